@@ -62,7 +62,7 @@ structure Trace where
   mods : List ModInfo
   evs : List Event               -- calls made by the poll thread itself, in order
   touches : List Touch           -- time stamps parameters received (whoever set them)
-  loopStart : Nat                -- the clock when the start-up round was over
+  loopStart : Nat                -- the clock when the start-up work (round, configured values) was over: the loop begins
   tEnd : Nat                     -- end of the observation
   alive : Bool                   -- the thread has not terminated
   eps : Nat                      -- largest step of the clock between two consecutive looks at it
@@ -153,6 +153,7 @@ def NoPollNeverRead (tr : Trace) : Prop :=
     | .read p => ∃ mi, tr.mods[e.m]? = some mi ∧ mi.enabled = true ∧ p ∈ mi.polled
     | .doPoll => ∃ mi, tr.mods[e.m]? = some mi ∧ mi.enabled = true
     | .init => e.m < tr.mods.length
+    | .write => e.m < tr.mods.length
 
 instance (tr : Trace) : Decidable (NoPollNeverRead tr) := by
   unfold NoPollNeverRead
